@@ -146,6 +146,14 @@ where
     /// ```
     pub fn find(&self, prefix: P) -> Option<TrieView<'a, P, T>> {
         let mut idx = self.loc.idx();
+        // a query that covers the node of this view addresses all entries of the view
+        let root_p = &self.table[idx].prefix;
+        if prefix.contains(root_p) && !root_p.eq(&prefix) {
+            return Some(Self {
+                table: self.table,
+                loc: ViewLoc::Virtual(prefix, idx),
+            });
+        }
         loop {
             match self.table.get_direction_for_insert(idx, &prefix) {
                 DirectionForInsert::Enter { next, .. } => {
@@ -698,6 +706,12 @@ where
         // is still not covered by any other view), while dropping `self`.
 
         let mut idx = self.loc.idx();
+        // a query that covers the node of this view addresses all entries of the view
+        let root_p = &self.table[idx].prefix;
+        if prefix.contains(root_p) && !root_p.eq(&prefix) {
+            let new_loc = ViewLoc::Virtual(prefix, idx);
+            return unsafe { Ok(Self::new(self.table, new_loc)) };
+        }
         loop {
             match self.table.get_direction_for_insert(idx, &prefix) {
                 DirectionForInsert::Enter { next, .. } => {
